@@ -72,6 +72,8 @@ def _variants(f):
     ma = {k: 1 for k, v in params.items() if 'matype' in k and isinstance(v.default, int) and v.default == 0}
     if ma:
         out.append(ma)
+    # the other parity of the period, another price source
+    out += indic.variants(f)
     return out
 
 
@@ -88,7 +90,7 @@ def check_at(name, W, ns):
 
 def _check_at(name, f, W, ns, kw):
     note = f' with {kw}' if kw else ''
-    for kind in ('random', 'trend', 'ties', 'zerovol'):
+    for kind in ('random', 'trend', 'ties', 'zerovol', 'flatrun'):
         for n in ns:
             c = indic.candles(n, 3, kind)
             try:
